@@ -136,6 +136,7 @@ type inst struct {
 	wcPath string
 	curMod string
 	warm   bool
+	frozen bool // shutting down: the log is complete
 
 	mu        sync.Mutex
 	cond      *sync.Cond
@@ -193,14 +194,14 @@ func installHooks() {
 				ids[i] = in.byAddr[b[i]]
 			}
 			in.sent++
-			in.events = append(in.events, kit.M{"e": "sent", "b": ids})
+			in.logLocked(kit.M{"e": "sent", "b": ids})
 			in.change++
 			in.cond.Broadcast()
 			in.mu.Unlock()
 		case "writecache.worker.done":
 			in.mu.Lock()
 			in.done++
-			in.events = append(in.events, kit.M{"e": "done"})
+			in.logLocked(kit.M{"e": "done"})
 			in.change++
 			in.cond.Broadcast()
 			in.mu.Unlock()
@@ -219,9 +220,17 @@ func (in *inst) abs(a oid.Address) int {
 	return in.byAddr[a] // immutable after construction
 }
 
+// logLocked appends a record to the log (in.mu held). Nothing is logged once the instance is being
+// shut down: Close switches the cache to read-only, which is not part of the recorded behaviour.
+func (in *inst) logLocked(ev kit.M) {
+	if !in.frozen {
+		in.events = append(in.events, ev)
+	}
+}
+
 func (in *inst) emit(ev kit.M) {
 	in.mu.Lock()
-	in.events = append(in.events, ev)
+	in.logLocked(ev)
 	in.change++
 	in.cond.Broadcast()
 	in.mu.Unlock()
@@ -235,7 +244,7 @@ func (in *inst) gate(kind string, addrs []int) decision {
 	in.mu.Lock()
 	if kind == "pfs" || kind == "dfs" || kind == "has" {
 		// marker: this goroutine is exactly between two steps of the model
-		in.events = append(in.events, kit.M{"e": "g", "k": kind, "p": in.gidProc[gid()], "a": addrs[0]})
+		in.logLocked(kit.M{"e": "g", "k": kind, "p": in.gidProc[gid()], "a": addrs[0]})
 		in.change++
 	}
 	block := !in.passAll && (in.steer || (kind == "round" && in.holdRound))
@@ -442,6 +451,7 @@ func (in *inst) reopen() string {
 
 func (in *inst) shutdown() {
 	in.mu.Lock()
+	in.frozen = true
 	in.passAll = true
 	in.mu.Unlock()
 	in.releaseAll()
@@ -558,7 +568,7 @@ func (in *inst) begin(p int, op string, a int, m string) *call {
 	c := &call{p: p, op: op, a: a, m: m}
 	in.mu.Lock()
 	in.calls[p] = c
-	in.events = append(in.events, kit.M{"e": "cs", "p": p, "op": op, "a": a, "m": m})
+	in.logLocked(kit.M{"e": "cs", "p": p, "op": op, "a": a, "m": m})
 	in.change++
 	in.mu.Unlock()
 	return c
@@ -585,7 +595,7 @@ func (in *inst) launch(c *call) {
 		c.res = res
 		c.done = true
 		delete(in.calls, c.p)
-		in.events = append(in.events, kit.M{"e": "ce", "p": c.p, "res": res})
+		in.logLocked(kit.M{"e": "ce", "p": c.p, "res": res})
 		in.change++
 		in.cond.Broadcast()
 		in.mu.Unlock()
